@@ -65,6 +65,10 @@ def getCache (ct : CacheResult) (isErr valid : Bool) : Bool :=
 def asyncAdjust (isAsync : Bool) (scope : Scope) (cv : CheckValid) (al : Allowed) : CheckValid × Allowed :=
   if isAsync ∧ scope = .backend then (.shallow, { al with single := false }) else (cv, al)
 
+/-- `_evaluate_apply`: in a run started with `cache=False` (`redun run --no-cache`) every job gets the scheduler-level
+override `cache_scope = CSE`, whatever the task definition or the call-time options say -/
+def runScope (useCache : Bool) (scope : Scope) : Scope := if useCache then scope else .cse
+
 /-- the cache options `subrun` gives `_subrun_root_task` -/
 def subrunAllowed : Allowed := ⟨true, false, true⟩
 
